@@ -22,8 +22,19 @@ impl Tracer {
     /// `changed` = the chain may have changed since the last line (re-project), otherwise reuse
     fn write(&mut self, tx: &Value, o: &Outcome, c: &Chain, cfg: &Cfg, changed: bool) {
         if changed || self.st.is_null() {
-            self.st = project(c, cfg);
-            self.obs = observe(c, cfg);
+            // a query of the contracts that fails (or panics) must not take the harness down: the state keeps its last
+            // projection and the observation says that a public query did not answer
+            match std::panic::catch_unwind(std::panic::AssertUnwindSafe(|| (project(c, cfg), observe(c, cfg)))) {
+                Ok((st, obs)) => {
+                    self.st = st;
+                    self.obs = obs;
+                }
+                Err(_) => {
+                    if let Some(o) = self.obs.as_object_mut() {
+                        o.insert("qok".into(), json!(false));
+                    }
+                }
+            }
         }
         let err = if o.err.contains("bank: zero amount") { "bank: zero amount".to_string() } else { o.err.clone() };
         writeln!(self.out, "{}", json!({"tx": tx, "ok": o.ok, "err": err, "fx": o.fx, "st": self.st, "obs": self.obs})).unwrap();
